@@ -530,15 +530,17 @@ Lemma marker_run_length sector remaining k : length (marker_run sector remaining
 Proof. revert sector remaining. induction k as [|k IH]; intros; cbn; [reflexivity|]. rewrite IH. reflexivity. Qed.
 
 Theorem scan_step_skips_a_complete_marker_run c version total sector n st jl rest' :
-  c_ro c = false -> has_token version = true ->
+  (c_ro c = false \/ jl = []) -> has_token version = true ->
   0 < n -> sector + n <= total -> total <= U64MAX ->
   scan_step c version total sector (marker_run sector n (N.to_nat n) ++ rest') st jl = Ok (Advance (sector + n) st jl).
 Proof.
-  intros Hrw Ht Hn Hin Hmax. assert (Hr : n < 2 ^ 64) by (unfold U64MAX in Hmax; lia).
+  intros Hmode Ht Hn Hin Hmax. assert (Hr : n < 2 ^ 64) by (unfold U64MAX in Hmax; lia).
+  assert (SK : (if c_ro c then ro_skip jl sector else (None, jl)) = (None, jl)).
+  { destruct Hmode as [M|M]; [rewrite M; reflexivity|]. rewrite M. destruct (c_ro c); reflexivity. }
   destruct (N.to_nat n) as [|k] eqn:NK; [lia|]. cbn [marker_run app].
   pose proof (marker_roundtrip sector n Hr) as MR.
   destruct (complete_marker_facts _ _ _ MR) as (F1 & F2 & F3 & F4).
-  unfold scan_step. rewrite Hrw, F1, Ht. cbn [negb andb]. rewrite F4, N.eqb_refl. cbn [negb]. rewrite F2.
+  unfold scan_step. rewrite SK, F1, Ht. cbn [negb andb]. rewrite F4, N.eqb_refl. cbn [negb]. rewrite F2.
   destruct (N.ltb_spec U64MAX (sector + n)); [lia|].
   destruct (N.eqb_spec n 0); [lia|]. destruct (N.ltb_spec total (sector + n)); [lia|]. cbn [orb].
   rewrite F3, N.eqb_refl. cbn [negb].
